@@ -14,6 +14,13 @@ Driver handler for C19. Requests (after the `C19` prefix):
   manager; events `s,<id>,<name>,<kind>` (kind `b` blocking, `io`/`ie`/`ip` instant
   ok/error/panic) and `r,<id>,<ok|err|panic>` (release a blocking job); one observation
   `q:<ids>/n:<names>/a:<activeWorkers>/r:<running ids>` per event, at quiescence.
+* `producers <N> <event>… => <live>/<names>/<k0,…,kN-1>…` — every producer of renewal jobs
+  interleaved over N names whose certificates are in storage and due for renewal, the CA failing
+  throughout (a job, once started, stays in its back-off until the history ends). Events `m<i>`
+  ManageAsync(name i), `c<i>` load name i into the cache (no job), `t` one maintenance pass,
+  `w<minutes>`. One observation per event, at quiescence: jobs alive in the job manager (workers +
+  queued), entries of `jm.names`, and per name the completed Lock calls so far on a storage lock of that
+  name (one per renewal job that got past the issuance lock).
 * `dir <ca> <testCA> <defaultCA> <useTestCA> => <directory> <usingTestCA>` — the real
   `newACMEClient` / `usingTestCA`.
 * `issue <attempts> <ca> <testCA> <defaultCA> <first> <second> => <dir:throttled,…> <certdir|-> <class>`.
@@ -301,6 +308,70 @@ def showClass : ErrClass → String
 
 def b01 (b : Bool) : String := if b then "1" else "0"
 
+/-! ### producers of renewal jobs -/
+
+inductive PEv where
+  | manage (i : Nat) | load (i : Nat) | tick | wait
+
+def decPEv (n : Nat) (s : String) : Option PEv :=
+  let idx (r : List Char) : Option Nat := (String.mk r).toNat?.bind (fun i => if i < n then some i else none)
+  match s.toList with
+  | ['t'] => some .tick
+  | 'm' :: r => (idx r).map .manage
+  | 'c' :: r => (idx r).map .load
+  | 'w' :: r => (String.mk r).toNat?.map (fun _ => .wait)
+  | _ => none
+
+/-- which names are in the cache, and for which names a renewal has been asked for (a function
+of the history alone: the certificates are due and the CA fails, so a renewal asked for is still
+being retried when the history ends) -/
+structure PSt where
+  cached : List Bool
+  job : List Bool
+
+def pStep (s : PSt) : PEv → PSt
+  | .manage i => if s.cached.getD i false then s
+                 else { cached := s.cached.set i true, job := s.job.set i true }
+  | .load i => { s with cached := s.cached.set i true }
+  | .tick => { s with job := List.zipWith (fun j c => j || c) s.job s.cached }
+  | .wait => s
+
+def pStates (s : PSt) : List PEv → List PSt
+  | [] => []
+  | e :: es => let s' := pStep s e; s' :: pStates s' es
+
+def pShow (s : PSt) : String :=
+  let c := toString (s.job.count true)
+  c ++ "/" ++ c ++ "/" ++ showList (s.job.map (fun b => if b then "1" else "0")) ","
+
+def decPObs (tok : String) : Option (Nat × Nat × List Nat) :=
+  match tok.splitOn "/" with
+  | [l, n, ks] =>
+    match l.toNat?, n.toNat?, (splitOnC ks ",").foldr (fun k acc => match k.toNat?, acc with
+        | some k, some a => some (k :: a)
+        | _, _ => none) (some []) with
+    | some l, some n, some ks => some (l, n, ks)
+    | _, _, _ => none
+  | _ => none
+
+/-- the specification, on the implementation's observations: per name never more than one
+renewal job (counted by the per-name completed lock calls, and — pigeonhole — by the number of live
+jobs against the number of names a renewal was asked for); a renewal asked for is not lost -/
+def specProducers : List PSt → List String → String
+  | [], [] => "ok"
+  | s :: ss, t :: ts =>
+    match decPObs t with
+    | none => "bad-op"
+    | some (live, names, ks) =>
+      let want := s.job.count true
+      if ks.length ≠ s.job.length then "bad-op"
+      else if ks.any (fun k => decide (k > 1)) || decide (live > want) || decide (names > want) then
+        "bad:two-renewal-jobs-one-name"
+      else if decide (live < want) || (List.zipWith (fun k j => j && k == 0) ks s.job).any id then
+        "bad:renewal-job-lost"
+      else specProducers ss ts
+  | _, _ => "bad-op"
+
 def handle (args impl : List String) : String :=
   match args with
   | ["retry", c, sc] =>
@@ -337,6 +408,22 @@ def handle (args impl : List String) : String :=
           | none => "bad-op"
         | _ => "-"
       reply (showTrace o.trace) spec ("async:" ++ toString (min o.trace.length 30))
+    | none => bad
+  | "producers" :: n :: evToks =>
+    match n.toNat? with
+    | some n =>
+      match evToks.foldr (fun t acc => match decPEv n t, acc with
+          | some e, some l => some (e :: l)
+          | _, _ => none) (some []) with
+      | some evs =>
+        if n = 0 || evs.isEmpty then bad else
+        let sts := pStates { cached := List.replicate n false, job := List.replicate n false } evs
+        let spec := if impl.isEmpty then "-" else specProducers sts impl
+        let both := evs.any (fun e => match e with | .tick => true | _ => false) &&
+                    evs.any (fun e => match e with | .manage _ => true | _ => false)
+        reply (String.intercalate " " (sts.map pShow)) spec
+          ("producers:" ++ toString n ++ ":" ++ toString (min evs.length 8) ++ (if both then "mt" else ""))
+      | none => bad
     | none => bad
   | "jobs" :: label :: m :: evToks =>
     match m.toNat?, evToks.foldr (fun t acc => match decSEv t, acc with
